@@ -604,6 +604,6 @@ def r5_representation_private(ctx, F):
         ctx.violation('C08-R5', 'inspects:' + fn.path, '%s matches on the representation of GameMods (Lazer / Intermode / Legacy) itself: outside model::mods a value must be asked '
                       'through the accessors, which are compared across the three spellings (C08-R1); a per-representation branch here can answer differently for the same mods' % fn.path,
                       fn.where(sites[0]))
-    ctx.floor('C08-R5', n, 20, 'functions of model::mods that switch on the GameMods representation (28 today)')
+    ctx.floor('C08-R5', n, 3, 'functions of model::mods that switch on the GameMods representation (28 today; a shared lookup helper may leave only a few)')
     if n:
         ctx.ok('C08-R5', 'representation-private', 'the GameMods variant is inspected by %d functions, all inside model::mods' % n)
